@@ -10,6 +10,7 @@ from vt import gen
 
 PROPERTY = "C16"
 TITLE = "Ice models self-consistent"
+TECHNIQUE = ('runtime monitoring: index / depth_with_index / gradient / attenuation_length executions on generated, re-parameterised and layered ice models decided by closed forms, scalar-vs-array agreement and round trips')
 ANCHORS = ["pyrex.ice_model:AntarcticIce.index", "pyrex.ice_model:AntarcticIce.depth_with_index",
            "pyrex.ice_model:AntarcticIce.gradient", "pyrex.ice_model:AntarcticIce.attenuation_length",
            "pyrex.ice_model:ArasimIce.attenuation_length", "pyrex.ice_model:GreenlandIce.attenuation_length",
